@@ -608,6 +608,59 @@ func (vc *VC) allocRef(st *State, what string) string {
 }
 
 // ---------------------------------------------------------------------------
+// row kinds: hasBig(ref) -- the allocation `ref` contains a math/big.Int object. A non-nil *big.Int points
+// into such an allocation, an allocation of a type without big.Int components is not one (Go type safety).
+// This separates the big.Int constants a frontend.Variable may hold from the arrays of Variables a gadget
+// writes, for element values the generator cannot resolve individually (quantified indices).
+
+func containsBig(l *Layouter, t types.Type, depth int) bool {
+	t = types.Unalias(t)
+	if n, ok := t.(*types.Named); ok {
+		if typeFullName(n) == "math/big.Int" {
+			return true
+		}
+		if _, op := l.opaque(n); op {
+			return false
+		}
+	}
+	if depth > 6 {
+		return true
+	}
+	switch tt := t.Underlying().(type) {
+	case *types.Struct:
+		for i := 0; i < tt.NumFields(); i++ {
+			if containsBig(l, tt.Field(i).Type(), depth+1) {
+				return true
+			}
+		}
+	case *types.Array:
+		return containsBig(l, tt.Elem(), depth+1)
+	}
+	return false
+}
+
+func isBigInt(t types.Type) bool {
+	n, ok := types.Unalias(t).(*types.Named)
+	return ok && typeFullName(n) == "math/big.Int"
+}
+
+func (vc *VC) hasBigDecl() {
+	vc.declFun("hasBig", []Sort{SInt}, SBool)
+}
+
+// noteAllocType records the row kind of a fresh allocation of element type t
+func (vc *VC) noteAllocType(l *Layouter, ref string, t types.Type) {
+	vc.hasBigDecl()
+	if containsBig(l, t, 0) {
+		if isBigInt(t) {
+			vc.assert(app("hasBig", ref))
+		}
+		return
+	}
+	vc.assert(sNot(app("hasBig", ref)))
+}
+
+// ---------------------------------------------------------------------------
 // type facts
 
 func (vc *VC) typeFacts(l *Layouter, t types.Type, c []string, brk string) []string {
@@ -633,7 +686,25 @@ func (vc *VC) typeFacts(l *Layouter, t types.Type, c []string, brk string) []str
 		}
 	case *types.Pointer:
 		out = append(out, app("<", c[0], brk), app(">=", c[1], "0"), sImp(sEq(c[0], "0"), sEq(c[1], "0")))
+		if isBigInt(tt.Elem()) {
+			vc.hasBigDecl()
+			out = append(out, sOr(sEq(c[0], "0"), app("hasBig", c[0])))
+		} else if !containsBig(l, tt.Elem(), 0) {
+			if _, isArr := tt.Elem().Underlying().(*types.Array); isArr || true {
+				// a pointer to a T without big.Int components may still be an interior pointer into a larger
+				// object that has some: nothing is known, except for slices of such T (whole backing arrays)
+			}
+		}
 	case *types.Slice:
+		if !containsBig(l, tt.Elem(), 0) {
+			if _, isIface := tt.Elem().Underlying().(*types.Interface); isIface {
+				// backing arrays of interface values are allocated as such (no Go object has an interior
+				// array of interfaces next to a big.Int except structs/arrays embedding one: excluded below)
+				vc.hasBigDecl()
+				out = append(out, sNot(app("hasBig", c[0])))
+				vc.assumptions["slices of interface values do not point into allocations that also hold a math/big.Int (no such struct in scope)"] = true
+			}
+		}
 		out = append(out, app("<", c[0], brk), app(">=", c[1], "0"), app(">=", c[2], "0"), app(">=", c[3], c[2]), app("<", c[3], "9223372036854775808"),
 			sImp(sEq(c[0], "0"), sAnd(sEq(c[2], "0"), sEq(c[3], "0"), sEq(c[1], "0"))))
 	case *types.Interface:
